@@ -229,7 +229,7 @@ def units(tier, seed):
     quick = tier == "quick"
     u = [{"name": "enum-pdgids", "kind": "pdgids"}]
     u += [{"name": f"enum-shapes-n{n}", "kind": "shapes", "n": n} for n in (1, 2, 3, 4, 5)]
-    u += [{"name": f"hyp-chain{k:02d}", "kind": "chain", "n": 600 if quick else 6000} for k in range(5)]
+    u += [{"name": f"hyp-chain{k:02d}", "kind": "chain", "n": 600 if quick else 12000} for k in range(5)]
     u += [{"name": f"hyp-fs{k:02d}", "kind": "fs", "n": 300 if quick else 5000} for k in range(3)]
     u += [{"name": f"hyp-parser{k:02d}", "kind": "parser", "n": 100 if quick else 1500} for k in range(4)]
     return u
